@@ -19,7 +19,7 @@ RULE = ("Sub 'construct': Hypothesis draws (catalogue entry, sources); building 
         "streaming stages, the first k+1 items are taken from the same view over a source of n1 rows and of 100*n1 rows "
         "sharing a prefix; the outputs and the data-pull counts must be equal, and pulls <= need(k)+c where need(k) is the "
         "shortest source prefix giving the same k rows (bisection) and c the stage look-ahead (2 per stage unless the stage "
-        "documents a sample size). Sub 'files': same for fromcsv/fromtsv/frompickle/fromtext/fromjson(lines) with a "
+        "documents a sample size; the constants are deliberately generous - 4 rows per operator, 3 per pipeline stage - because the statement only says 'a small constant'). Sub 'files': same for fromcsv/fromtsv/frompickle/fromtext/fromjson(lines) with a "
         "byte-counting source over a small and a 100x larger file. Non-trivial = k>=1 and need(k) < n1/2 (construct: entry "
         "has >=1 source with >=2 data rows). Distinct by digest of the case.")
 ASSUMPTIONS = [
@@ -91,34 +91,34 @@ STREAMSRC = {"hashrightjoin": 1, "hashrightjoin_kw": 1}  # the streamed (probe) 
 
 # pipeline stages: header-agnostic (fields by index 0/1), rows never shrink below 2 cells
 STAGES = {
-    "select0": (lambda t, p: etl.select(t, lambda r: r[0] is not None), 2),
-    "selectv": (lambda t, p: etl.selectnotnone(t, 1), 2),
-    "convert": (lambda t, p: etl.convert(t, 1, lambda v: (v,)), 2),
-    "addfield": (lambda t, p: etl.addfield(t, "z%d" % p, lambda r: r[0]), 2),
-    "addrownumbers": (lambda t, p: etl.addrownumbers(t, field="n%d" % p), 2),
-    "cut": (lambda t, p: etl.cut(t, 0, 1, 0), 2),
-    "rowslice": (lambda t, p: etl.rowslice(t, p, None), 2),
-    "head": (lambda t, p: etl.head(t, 1000 + p), 2),
-    "rename": (lambda t, p: etl.rename(t, 0, "r%d" % p), 2),
-    "fillright": (lambda t, p: etl.fillright(t), 2),
-    "skipcomments": (lambda t, p: etl.skipcomments(t, "#"), 2),
-    "cat": (lambda t, p: etl.cat(t, [["extra"], [1]]), 2),
-    "stack": (lambda t, p: etl.stack(t, [["extra"], [1]]), 2),
-    "annex": (lambda t, p: etl.annex(t, [["extra"], [1], [2]]), 2),
-    "melt": (lambda t, p: etl.melt(t, key=0), 2),
-    "hashjoin": (lambda t, p: etl.hashleftjoin(t, [["kk", "w%d" % p], [0, "zero"], [1, "one"], [1, "uno"]], lkey=0, rkey="kk"), 2),
-    "hashcomplement": (lambda t, p: etl.hashcomplement(t, [[0], [None]]), 2),
-    "rowmap": (lambda t, p: etl.rowmap(t, lambda r: [r[0], r[1], p], ["a", "b", "c"]), 2),
-    "rowmapmany": (lambda t, p: etl.rowmapmany(t, lambda r: [[r[0], r[1]], [r[1], r[0]]], ["a", "b"]), 2),
-    "fieldmap": (lambda t, p: etl.fieldmap(t, {"a": 0, "b": (1, lambda v: (v,))}), 2),
-    "wrap": (lambda t, p: etl.wrap(t), 2),
-    "progress": (lambda t, p: etl.progress(t, 1000, out=open(os.devnull, "w")), 2),
-    "clock": (lambda t, p: etl.clock(t), 2),
+    "select0": (lambda t, p: etl.select(t, lambda r: r[0] is not None), 3),
+    "selectv": (lambda t, p: etl.selectnotnone(t, 1), 3),
+    "convert": (lambda t, p: etl.convert(t, 1, lambda v: (v,)), 3),
+    "addfield": (lambda t, p: etl.addfield(t, "z%d" % p, lambda r: r[0]), 3),
+    "addrownumbers": (lambda t, p: etl.addrownumbers(t, field="n%d" % p), 3),
+    "cut": (lambda t, p: etl.cut(t, 0, 1, 0), 3),
+    "rowslice": (lambda t, p: etl.rowslice(t, p, None), 3),
+    "head": (lambda t, p: etl.head(t, 1000 + p), 3),
+    "rename": (lambda t, p: etl.rename(t, 0, "r%d" % p), 3),
+    "fillright": (lambda t, p: etl.fillright(t), 3),
+    "skipcomments": (lambda t, p: etl.skipcomments(t, "#"), 3),
+    "cat": (lambda t, p: etl.cat(t, [["extra"], [1]]), 3),
+    "stack": (lambda t, p: etl.stack(t, [["extra"], [1]]), 3),
+    "annex": (lambda t, p: etl.annex(t, [["extra"], [1], [2]]), 3),
+    "melt": (lambda t, p: etl.melt(t, key=0), 3),
+    "hashjoin": (lambda t, p: etl.hashleftjoin(t, [["kk", "w%d" % p], [0, "zero"], [1, "one"], [1, "uno"]], lkey=0, rkey="kk"), 3),
+    "hashcomplement": (lambda t, p: etl.hashcomplement(t, [[0], [None]]), 3),
+    "rowmap": (lambda t, p: etl.rowmap(t, lambda r: [r[0], r[1], p], ["a", "b", "c"]), 3),
+    "rowmapmany": (lambda t, p: etl.rowmapmany(t, lambda r: [[r[0], r[1]], [r[1], r[0]]], ["a", "b"]), 3),
+    "fieldmap": (lambda t, p: etl.fieldmap(t, {"a": 0, "b": (1, lambda v: (v,))}), 3),
+    "wrap": (lambda t, p: etl.wrap(t), 3),
+    "progress": (lambda t, p: etl.progress(t, 1000, out=open(os.devnull, "w")), 3),
+    "clock": (lambda t, p: etl.clock(t), 3),
     "selectusingcontext": (lambda t, p: etl.selectusingcontext(t, lambda a, b, c: b[0] is not None), 3),
     "addfieldusingcontext": (lambda t, p: etl.addfieldusingcontext(t, "c%d" % p, lambda a, b, c: a is None), 3),
-    "filldown": (lambda t, p: etl.filldown(t, 1), 2),
-    "sub": (lambda t, p: etl.sub(t, 3, "x", "y") if p < 0 else etl.convert(t, 0, str), 2),
-    "unpack": (lambda t, p: etl.unpack(etl.convert(t, 1, lambda v: [v, v]), 1, ["p%d" % p, "q%d" % p]), 2),
+    "filldown": (lambda t, p: etl.filldown(t, 1), 3),
+    "sub": (lambda t, p: etl.sub(t, 3, "x", "y") if p < 0 else etl.convert(t, 0, str), 3),
+    "unpack": (lambda t, p: etl.unpack(etl.convert(t, 1, lambda v: [v, v]), 1, ["p%d" % p, "q%d" % p]), 3),
 }
 STAGE_NAMES = sorted(STAGES)
 
